@@ -405,6 +405,9 @@ def run_check(prop, modname, tier, seed, profiles=('dev',), meta=None):
     if evaluations and incon > 0.10 * (evaluations + incon):
         broken.append('too many inconclusive cases: %d of %d' % (incon, evaluations + incon))
     if len(fps) < 2: broken.append('fewer than 2 distinct non-trivial cases')
+    if not samples:
+        broken.append('no sample case was recorded')
+        samples = [{'note': 'no sample case was recorded by this run'}]      # (keeps the evidence file schema-valid)
     cov = {'evaluations': evaluations, 'distinct_nontrivial': len(fps), 'rule': meta.get('rule', ''), 'samples': samples,
            'inconclusive': incon, 'inconclusive_reasons': incon_reasons, 'observed': counters,
            'worker_restarts': sum(r['restarts'] for r in results), 'profiles': list(profiles),
